@@ -3,12 +3,14 @@
     longest-idle first; a gate passes only parts its predicate accepts; a blocked input refuses; the stored part's history
     is the offered history plus the device; identities never change), and — over every exception-free history, also inside a
     run — that a handler, processor or sink which reports a waiting-for-part time (the key of the longest-idle order) holds
-    nothing (the invariant the repair of D9 restored).  History without gaps along a whole route,
+    nothing (the invariant the repair of D9 restored); and — in every reachable state of every well-formed scenario — the routing
+    history of every part ends with the device that holds it (so, with the extension lemma, histories grow by exactly the traversed
+    devices, the last entry always being where the part is).  History without gaps along a whole route,
     group-path matching and sink arrival order over a run are decided by the routing monitor and the lock-step. *)
 From Coq Require Import ZArith List Bool Lia Sorting.Permutation Sorting.Sorted.
 From RecordUpdate Require Import RecordUpdate.
 From SimVerif Require Import Model.Base Model.Env Model.FamEnv Model.RM Model.Maint Model.FloorTypes Model.Floor Model.FamFloor.
-From SimVerif Require Import Proofs.RMInv Proofs.EnvInv Proofs.EnvPause Proofs.FloorSteps Proofs.FloorInv Proofs.FloorSys Proofs.FloorProc Proofs.FloorFlow Proofs.FloorRes Proofs.FloorLink Proofs.FloorIdle Proofs.FloorTimer Proofs.FloorWait.
+From SimVerif Require Import Proofs.RMInv Proofs.EnvInv Proofs.EnvPause Proofs.FloorSteps Proofs.FloorInv Proofs.FloorSys Proofs.FloorProc Proofs.FloorFlow Proofs.FloorRes Proofs.FloorLink Proofs.FloorIdle Proofs.FloorTimer Proofs.FloorWait Proofs.FloorReach Proofs.FloorHist.
 Import ListNotations.
 Open Scope Z_scope.
 
@@ -119,4 +121,27 @@ Proof.
   { apply ro_init; [vm_compute; reflexivity|]. unfold c08_s0. vm_compute. reflexivity. }
   split; [vm_compute; reflexivity|]. split; [apply reach_ok_in, fx_steps_reach; [exact R0|vm_compute; reflexivity]|].
   split; vm_compute; reflexivity.
+Qed.
+
+(** * the routing history of a part ends where the part is: in every reachable state of every well-formed scenario (any operation
+    sequence, faults, rewiring, late construction, any weights), a part inside an item that device [d] holds — in its input slot or
+    output slot, stored in a buffer, or collected into the batch a batcher is filling — has a history whose last entry is [d].
+    With [C08_history_extended_by_device] (the stored item is the offered item with the accepting device appended; flow controllers,
+    gates and group paths append themselves when they pass an offer on: definition of [give]) a history is extended by exactly the
+    devices a part traverses, one hand-over at a time, and refused offers leave nothing behind (the offered value is immutable in
+    the model; the lock-step compares the implementation's mutated-and-restored lists after every event). *)
+Theorem C08_held_part_history_ends_with_holder : forall sc s d x it p,
+  reach_fl sc s -> aget d (f_devs (fst s)) = Some x ->
+  d_part x = Some it \/ d_out x = Some it \/ d_inprog x = Some it \/ (exists t, In (t, it) (d_buf x)) ->
+  In p (item_parts it) -> exists h, p_hist p = h ++ [d].
+Proof. exact held_part_history_ends_here. Qed.
+Print Assumptions C08_held_part_history_ends_with_holder.
+
+Example C08_history_nonvacuous :
+  reach_fl c08_sc c08_s3 /\
+  option_map (fun it => map p_hist (item_parts it)) (d_part (getd (fst c08_s3) 2)) = Some [[1; 2]].
+Proof.
+  split; [|vm_compute; reflexivity].
+  unfold c08_s3, c08_s0. change (fx_steps c08_sc 3 ?s) with (fst (do_fxop c08_sc (fst (do_fxop c08_sc (fst (do_fxop c08_sc s FXStep)) FXStep)) FXStep)).
+  repeat (apply rf_op; [|discriminate]). apply rf_init. vm_compute. reflexivity.
 Qed.
